@@ -10,7 +10,7 @@
 use crate::comps::*;
 use crate::util::{catch, Out};
 use serde_json::{json, Value};
-use specs::hibitset::{BitSetAnd, BitSetNot, BitSetOr, BitSetXor};
+use specs::hibitset::{BitSetAnd, BitSetLike, BitSetNot, BitSetOr, BitSetXor};
 use specs::prelude::*;
 use specs::storage::UnprotectedStorage;
 use std::collections::BTreeMap;
@@ -121,6 +121,10 @@ fn ids_of(m: &Value, key: &str) -> Vec<u32> {
 }
 
 pub struct Run<'a> {
+    /// unconstrained joins: number of items delivered
+    pub count: std::cell::Cell<Option<u64>>,
+    /// unconstrained joins with an index-valued member: the indices whose items are recorded
+    pub watch: Vec<u32>,
     pub variant: &'a str,
     pub threads: usize,
     pub tree: Vec<bool>,
@@ -216,6 +220,80 @@ macro_rules! drive {
     }};
 }
 
+/// Unconstrained joins deliver one item per index of the whole index space
+/// (2^24): all of them are counted, only the `$keep` ones are recorded.
+macro_rules! drive_u {
+    ($run:expr, $count:expr, $tuple:expr, |$pat:pat_param| $keep:expr, $body:expr) => {{
+        let run: &Run = $run;
+        let mut n: u64 = 0;
+        let items: Vec<Value> = match run.variant {
+            "join" => {
+                let mut v = vec![];
+                for $pat in ($tuple).join() {
+                    n += 1;
+                    if $keep {
+                        v.push(json!($body));
+                    }
+                }
+                v
+            }
+            "lend" => {
+                let mut v = vec![];
+                let mut it = ($tuple).lend_join();
+                while let Some($pat) = it.next() {
+                    n += 1;
+                    if $keep {
+                        v.push(json!($body));
+                    }
+                }
+                v
+            }
+            "lend_for_each" => {
+                let mut v = vec![];
+                ($tuple).lend_join().for_each(|$pat| {
+                    n += 1;
+                    if $keep {
+                        v.push(json!($body));
+                    }
+                });
+                v
+            }
+            "par" => {
+                let pool = rayon::ThreadPoolBuilder::new().num_threads(run.threads.max(1)).build().unwrap();
+                let out = Mutex::new(Vec::<Value>::new());
+                let cnt = std::sync::atomic::AtomicU64::new(0);
+                pool.install(|| {
+                    ($tuple).par_join().for_each(|$pat| {
+                        cnt.fetch_add(1, std::sync::atomic::Ordering::Relaxed);
+                        if $keep {
+                            let v = json!($body);
+                            out.lock().unwrap().push(v);
+                        }
+                    })
+                });
+                n = cnt.into_inner();
+                out.into_inner().unwrap()
+            }
+            "split" => {
+                let mut v = vec![];
+                let mut dec = run.tree.iter().copied();
+                specs::join::verif_split_fold($tuple, &mut dec, |leaf: usize, $pat| {
+                    n += 1;
+                    if $keep {
+                        let mut item = json!($body);
+                        item.as_array_mut().unwrap().push(json!(["leaf", leaf]));
+                        v.push(item);
+                    }
+                });
+                v
+            }
+            _ => vec![json!("unsupported")],
+        };
+        *$count = Some(n);
+        (items, vec![])
+    }};
+}
+
 fn w<T: TokComp>(c: &mut T) -> Value {
     let b = c.js();
     let v = c.val();
@@ -271,6 +349,18 @@ pub const SHAPES: &[(&str, &[&str])] = &[
     ("dr", &["dr"]),
     ("e_dr", &["e", "dr"]),
     ("r_fr", &["r", "r"]),
+    ("ab_r", &["b", "r"]),
+    ("abv", &["bv"]),
+    ("dyn_r", &["b", "r"]),
+    ("rband_r", &["band", "r"]),
+    ("rbor", &["bor"]),
+    ("rbnot_r", &["bnot", "r"]),
+    // unconstrained joins: every member is optional or negated, the join walks the whole index space
+    ("u_n", &["n"]),
+    ("u_m", &["m"]),
+    ("u_n_m", &["n", "m"]),
+    ("u_mw", &["mw"]),
+    ("u_bnot_m", &["bnot", "m"]),
     ("a3", &["w", "r", "r"]),
     ("a4", &["r", "w", "r", "m"]),
     ("a5", &["e", "r", "w", "n", "r"]),
@@ -363,9 +453,14 @@ pub fn run_script(script: &Value) -> Value {
     probe.sort();
     probe.dedup();
     let variant = script["variant"].as_str().unwrap_or("join").to_string();
-    let run = Run { variant: &variant, threads, tree, probe };
+    let mut watch: Vec<u32> = members.iter().flat_map(|m| ids_of(m, "ids")).collect();
+    watch.extend([0u32, 1, 63, 64, 4095, 4096, 262143, 262144, (1 << 24) - 1]);
+    watch.sort();
+    watch.dedup();
+    let run = Run { count: std::cell::Cell::new(None), watch, variant: &variant, threads, tree, probe };
     let ents_js: Vec<Value> = live.iter().map(|&e| ej(e)).collect();
     let r = catch(|| exec_shape(&mut s, &shape, &run));
+    let (ucount, uwatch) = (run.count.get(), run.watch.clone());
     let (items, gets) = match r {
         Ok(x) => x,
         Err(msg) => {
@@ -405,8 +500,15 @@ pub fn run_script(script: &Value) -> Value {
     if variant == "par" {
         sorted.sort_by_key(|v| v.to_string());
     }
-    json!({"op":"Join","tid":script["tid"],"shape":shape,"variant":variant,"threads":threads,
-           "mem":mem_js,"ents":ents_js,"items":sorted,"gets":gets,"after":after,"panic":""})
+    let mut ev = json!({"op":"Join","tid":script["tid"],"shape":shape,"variant":variant,"threads":threads,
+           "mem":mem_js,"ents":ents_js,"items":sorted,"gets":gets,"after":after,"panic":""});
+    if let Some(n) = ucount {
+        let m = ev.as_object_mut().unwrap();
+        m.insert("count".into(), json!(n));
+        m.insert("top".into(), json!(1u64 << 24));
+        m.insert("watch".into(), json!(uwatch));
+    }
+    ev
 }
 
 /// storage type by (shape, member position)
@@ -517,6 +619,72 @@ fn exec_shape(s: &mut Setup, shape: &str, run: &Run) -> (Vec<Value>, Vec<Value>)
         "bv" => {
             let bs = &s.bitsets[0];
             drive!(run, world, par = yes, (bs.clone(),), |(i,)| [json!([i])])
+        }
+        "ab_r" => {
+            let abs: specs::hibitset::AtomicBitSet = (&s.bitsets[0]).iter().collect();
+            let b = world.read_storage::<D0>();
+            drive!(run, world, par = yes, (&abs, &b), |(i, y)| [json!([i]), y.js()])
+        }
+        "abv" => {
+            let mk = || -> specs::hibitset::AtomicBitSet { (&s.bitsets[0]).iter().collect() };
+            drive!(run, world, par = yes, (mk(),), |(i,)| [json!([i])])
+        }
+        "dyn_r" => {
+            let bs: &dyn BitSetLike = &s.bitsets[0];
+            let b = world.read_storage::<D0>();
+            drive!(run, world, par = no, (bs, &b), |(i, y)| [json!([i]), y.js()])
+        }
+        "rband_r" => {
+            let both = BitSetAnd(&s.bitsets[0], &s.bitsets2[0]);
+            let b = world.read_storage::<D0>();
+            drive!(run, world, par = yes, (&both, &b), |(i, y)| [json!([i]), y.js()])
+        }
+        "rbor" => {
+            let either = BitSetOr(&s.bitsets[0], &s.bitsets2[0]);
+            drive!(run, world, par = yes, (&either,), |(i,)| [json!([i])])
+        }
+        "rbnot_r" => {
+            let neg = BitSetNot(&s.bitsets[0]);
+            let b = world.read_storage::<D0>();
+            drive!(run, world, par = yes, (&neg, &b), |(i, y)| [json!([i]), y.js()])
+        }
+        "u_n" => {
+            let a = world.read_storage::<V0>();
+            let mut c = None;
+            let r = drive_u!(run, &mut c, (!&a,), |(_u,)| false, [json!([UNIT])]);
+            run.count.set(c);
+            r
+        }
+        "u_m" => {
+            let a = world.read_storage::<V0>();
+            let mut c = None;
+            let r = drive_u!(run, &mut c, ((&a).maybe(),), |(x,)| x.is_some(), [ro(x)]);
+            run.count.set(c);
+            r
+        }
+        "u_n_m" => {
+            let a = world.read_storage::<V0>();
+            let b = world.read_storage::<D0>();
+            let mut c = None;
+            let r = drive_u!(run, &mut c, (!&a, (&b).maybe()), |(_u, y)| y.is_some(), [json!([UNIT]), ro(y)]);
+            run.count.set(c);
+            r
+        }
+        "u_mw" => {
+            let mut a = world.write_storage::<V0>();
+            let mut c = None;
+            let r = drive_u!(run, &mut c, ((&mut a).maybe(),), |(x,)| x.is_some(), [wo(x)]);
+            run.count.set(c);
+            r
+        }
+        "u_bnot_m" => {
+            let b1 = &s.bitsets[0];
+            let b = world.read_storage::<D0>();
+            let watch = &run.watch;
+            let mut c = None;
+            let r = drive_u!(run, &mut c, (BitSetNot(b1), (&b).maybe()), |(i, y)| y.is_some() || watch.binary_search(&i).is_ok(), [json!([i]), ro(y)]);
+            run.count.set(c);
+            r
         }
         "band_r" => {
             let (b1, b2) = (&s.bitsets[0], &s.bitsets2[0]);
